@@ -184,9 +184,9 @@ type userSM struct {
 	openIndex uint64
 	// call counters
 	nPrepare, nSave, nRecover, nSync, nOpen, nClose int
-	recoveredAt                                    []uint64 // `applied` of every image loaded by RecoverFromSnapshot
-	savedAt                                        []uint64 // `applied`/count of every image written by SaveSnapshot
-	batchMax                                       int
+	recoveredAt                                     []uint64 // `applied` of every image loaded by RecoverFromSnapshot
+	savedAt                                         []uint64 // `applied`/count of every image written by SaveSnapshot
+	batchMax                                        int
 }
 
 func newUserSM(kind int, fs vfs.IFS, path string) *userSM {
